@@ -385,6 +385,12 @@ impl ModuleManager {
             imports.remove(name);
         }
 
+        // Drop the import declarations that point at the deleted module, so that the
+        // declarations and the import graph keep describing the same relation
+        for module in self.modules.values_mut() {
+            module.imports.retain(|import| import.from_module != name);
+        }
+
         Ok(())
     }
 
